@@ -277,6 +277,16 @@ where
     }
 }
 
+/// The abbreviation of a namespace is written as an XML prefix, which has to start with a letter: a namespace that ends
+/// with a slash, or with a number, gets `ns` in front of what is left of it.
+fn as_xml_prefix(abbreviation: &str) -> String {
+    let mut prefix: String = abbreviation.chars().filter(|c| c.is_ascii_alphanumeric()).collect();
+    if !prefix.starts_with(|c: char| c.is_ascii_alphabetic()) {
+        prefix.insert_str(0, "ns");
+    }
+    prefix
+}
+
 fn make_abbreviated_namespace(namespace: &str, existing_namespaces: &[Rc<Namespace>]) -> String {
     fn take_three_chars_max(namespace: &str) -> String {
         // the abbreviation is used as an XML prefix and in a Rust module name
@@ -295,7 +305,7 @@ fn make_abbreviated_namespace(namespace: &str, existing_namespaces: &[Rc<Namespa
         take_three_chars_max(namespace)
     };
 
-    let abbreviation = abbreviation.to_lowercase();
+    let abbreviation = as_xml_prefix(&abbreviation.to_lowercase());
 
     loop {
         let use_abbreviation = if let Some(append) = append {
